@@ -8,8 +8,11 @@ ASYNC_FORMS = ['await', 'awaitexpr', 'awaitprint', 'gather', 'asyncwith', 'async
 NPTS = {'for': 2, 'if': 2, 'try': 2, 'tryexc': 2, 'semi': 2, 'semiemit': 2, 'multicall': 2, 'asyncwith': 3,
         'asyncfor': 2, 'comment': 0, 'blankprompt': 0, 'directive': 0, 'defhelper': 0, 'defemit': 0, 'defclass': 0,
         'asyncdef': 0, 'badcompile': 0, 'usename': 0, 'useG': 0, 'useshadow': 0, 'delconst': 0, 'hasconst': 0,
-        'decodef2': 2, 'chainexc': 2, 'bgtask': 3, 'useclass': 0, 'trysibling': 2, 'regappend': 0, 'keepout': 0, 'const': 0, 'loopval': 0, 'defreprclass': 0, 'reprexpr': 0}
-MULTILINE_FORMS = {'bgtask', 'trysibling', 'chainexc', 'withswap', 'defreprclass', 'tqdirective', 'for', 'if', 'with', 'try', 'tryexc', 'multiline', 'multicall', 'tq', 'tqprint', 'defhelper',
+        'decodef2': 2, 'chainexc': 2, 'bgtask': 3, 'useclass': 0, 'trysibling': 2, 'regappend': 0, 'keepout': 0, 'const': 0, 'loopval': 0, 'futureimport': 0, 'strsemi': 0, 'defreprclass': 0, 'reprexpr': 0}
+# forms whose source line cannot carry a trailing directive comment (strsemi ends in a comment
+# of its own, and a directive is only recognised at the start of a comment)
+NO_INLINE_FORMS = ('tq', 'tqprint', 'tqdirective', 'bgtask', 'defreprclass', 'strsemi')
+MULTILINE_FORMS = {'bgtask', 'trysibling', 'chainexc', 'withswap', 'defreprclass', 'tqdirective', 'annot', 'for', 'if', 'with', 'try', 'tryexc', 'multiline', 'multicall', 'tq', 'tqprint', 'defhelper',
                    'defemit', 'asyncwith', 'asyncfor', 'asyncdef', 'defclass', 'decoclass', 'decoasync', 'decodef2'}
 # forms in which a point may raise without the doctest's own code handling it
 TB_FORMS = {'expr', 'print', 'emit', 'multiline', 'assign', 'callmod', 'callmod_expr', 'callhelper',
@@ -154,7 +157,7 @@ def gen_steps(rng, cfg, pfx, modname):
             st['ps2'] = False
         if form == 'coroexpr':
             st['ps2'] = False
-        if cfg.p_inline_dir and form not in W.NOCODE_FORMS and form not in ('tq', 'tqprint', 'tqdirective', 'bgtask', 'defreprclass') and rng.random() < cfg.p_inline_dir:
+        if cfg.p_inline_dir and form not in W.NOCODE_FORMS and form not in NO_INLINE_FORMS and rng.random() < cfg.p_inline_dir:
             st['inline'] = rng.choice(HARMLESS_DIRS)
             st['inline_at'] = rng.choice(['first', 'last'])
             chunk_start = True      # an inline directive makes the statement a part of its own
@@ -198,7 +201,7 @@ def gen_steps(rng, cfg, pfx, modname):
             elif r < cfg.p_tb + cfg.p_want:
                 cands = []
                 # (an unfinished line is completed, and checked, by a later statement)
-                for wk in (cfg.want_kinds if form != 'emitnoeol' else []):
+                for wk in (cfg.want_kinds if form not in ('emitnoeol', 'emitcr') else []):
                     if wk == 'acc' and (prints or window_nonempty) and not has_value:
                         cands.append(wk)
                     if wk == 'last' and prints and isexpr:
@@ -338,7 +341,7 @@ def add_skips(rng, steps, unmet='env:SIM_NOT_SET'):
         steps.insert(rng.randint(0, n), block('-'))
         steps.insert(0, block('+'))
     else:
-        cands = [st for st in steps if st['form'] not in W.NOCODE_FORMS and st['form'] not in ('tq', 'tqprint', 'tqdirective', 'bgtask', 'defreprclass') and not st.get('inline')]
+        cands = [st for st in steps if st['form'] not in W.NOCODE_FORMS and st['form'] not in NO_INLINE_FORMS and not st.get('inline')]
         for st in rng.sample(cands, min(len(cands), rng.randint(1, 2))):
             st['inline'] = [['+', 'SKIP', None]]
             st['inline_at'] = rng.choice(['first', 'last'])
